@@ -24,11 +24,19 @@ PARAM_KEYS = ['x', 'y', 'z', 'lr', 'path', 'opt', 'x2', 'lr10']
 # quote-free text, sometimes with placeholders (defined: DATA, CFGDIR when global_vars are given; UNDEF never)
 TEXT_PH = st.one_of(values.TEXT_SMALL, values.TEXT_SMALL, values.TEXT_SMALL,
                     st.sampled_from(['{DATA}/f', 'pre_{DATA}', '{UNDEF}/u', '{DATA}{DATA}']))
-param_values = values.json_values(text=TEXT_PH, keys=values.TEXT_SMALL, max_leaves=5)
+def _with_repeats(base):
+    """Also values that hold the SAME container twice (`[X, X]`, `{'a': X, 'b': X}`): written as YAML they become an
+    anchor and an alias - one shared object inside one parameter value."""
+    boxes = base.filter(lambda v: isinstance(v, (list, dict)) and bool(v))
+    return st.one_of(base, base, base, base, boxes.map(lambda v: [v, 1, copy.deepcopy(v)]),
+                     boxes.map(lambda v: {'a': v, 'b': copy.deepcopy(v)}))
+
+
+param_values = _with_repeats(values.json_values(text=TEXT_PH, keys=values.TEXT_SMALL, max_leaves=5))
 # with {CFGDIR}: its value differs between the two configurations of a C02 pair (never used inside one history,
 # where global_vars must stay constant)
-param_values_cfgdir = values.json_values(text=st.one_of(TEXT_PH, st.just('{CFGDIR}/q')), keys=values.TEXT_SMALL,
-                                         max_leaves=5)
+param_values_cfgdir = _with_repeats(values.json_values(text=st.one_of(TEXT_PH, st.just('{CFGDIR}/q')),
+                                                       keys=values.TEXT_SMALL, max_leaves=5))
 # strings with quotes, separators of the key text and escapes (C12: representation must stay the 1.4.0 one)
 TEXT_KEYISH = st.one_of(values.TEXT_SMALL, st.sampled_from(["'", '"', "a'b", '###', '$$$', 'x=1', "', '", '\\', 'é', ' ', '[]',
                                                             '{A}', "it's", 'a###b=c', '\n']),
